@@ -784,7 +784,24 @@ def r14_sizes_are_compared_before_they_are_narrowed(cx):
     cx.ob("R14", "R14/narrowing-casts-in-the-reader", n >= 10, "(reader)", "%d narrowing casts to u8/u16 in the directory and content pack readers examined" % n)
 
 
+def r15_every_value_is_registered(cx):
+    """'byte arrays of any length however they are split': the id an entry stores for the deported part of an array is
+    given by the value store, whose kind decides what an id means (a byte offset in a plain store, a rank among the
+    sorted values in an indexed one). `StoreHandle::add_value` therefore hands every value -- the empty one included --
+    to the store: no successful path returns a handle without passing `ValueStore::add_value`."""
+    F = cx.F
+    f = F.one(impl_self="value_store::StoreHandle", item="add_value", closure=False)
+    b = F.body(f)
+    reg = [i for i, t in b.calls(r"value_store::ValueStore::add_value(::<.*>)?$")]
+    if not reg:
+        raise AnchorLost("StoreHandle::add_value no longer calls ValueStore::add_value")
+    ok = b.must_pass_before_return(set(reg))
+    cx.ob("R15", "R15/StoreHandle.add_value/every-value-is-registered", ok, f,
+          "every successful path of StoreHandle::add_value passes ValueStore::add_value (%d sites)" % len(reg))
+
+
 RULES = [
+    ("R15", r15_every_value_is_registered, 1),
     ("R14", r14_sizes_are_compared_before_they_are_narrowed, 1),
     ("R1", r1_signed_width, 3),
     ("R1", r1b_fold_does_not_wrap, 1),
